@@ -73,4 +73,76 @@ def acceptsTrace : S → List (Op × Out × S) → Bool
   | _, [] => true
   | s, (o, r, obs) :: t => decide (r = answer s o) && decide (obs = next s o) && acceptsTrace (next s o) t
 
+/-! ### the model `B` through the same interface: one provider, any history, any operand pairing -/
+
+/-- a call on one provider of the model; `bin`: in-place binary operation with an operand of any implementation -/
+inductive SeqOp where
+  | add (vs : List Nat)
+  | remove (v : Nat)
+  | clear
+  | checkedAdd (v : Nat)
+  | contains (v : Nat)
+  | card
+  | slice
+  | each (k : Nat)
+  | clone
+  | bin (op : BinOp) (o : Operand)
+deriving Repr, Inhabited
+
+/-- the content of an operand (`selfWrapper`: the receiver's own) -/
+def operandSet (p : Prov) : Operand → S
+  | .bitmap s => s
+  | .wrapper _ s => s
+  | .selfWrapper => p.set
+  | .nonDuplex => []
+
+/-- the spec operation a call stands for -/
+def SeqOp.spec (p : Prov) : SeqOp → Op
+  | .add vs => .add vs
+  | .remove v => .remove v
+  | .clear => .clear
+  | .checkedAdd v => .checkedAdd v
+  | .contains v => .contains v
+  | .card => .card
+  | .slice => .slice
+  | .each k => .each k
+  | .clone => .clone
+  | .bin op o => .bin op (operandSet p o)
+
+def resOut : Prov × Res → Prov × Option Out
+  | (p, .ok) => (p, some .unit)
+  | (p, .deadlock) => (p, none)
+
+/-- what the MODEL does for the call (plain bitmap or wrapper, `fixed`/`snap` = code version); `none` = the call never
+returns -/
+def _root_.Dawgs.C13.Prov.step (fixed snap : Bool) (p : Prov) : SeqOp → Prov × Option Out
+  | .add vs => resOut (p.update (fun s => addMany s vs))
+  | .remove v => resOut (p.update (del v))
+  | .clear => resOut (p.update (fun _ => []))
+  | .checkedAdd v => ((p.checkedAdd v).1, (p.checkedAdd v).2.map .bool)
+  | .contains v => (p, (p.guard (fun s => has s v)).map .bool)
+  | .card => (p, (p.guard List.length).map .nat)
+  | .slice => (p, (p.guard id).map .list)
+  | .each k => (p, (p.guard (fun s => eachPrefix s k)).map .list)
+  | .clone => (p, p.clone.map (fun q => .list q.set))
+  | .bin op o => resOut (p.binop fixed snap op o)
+
+/-- the model's run of a history is accepted by the spec: every call returns, with the ideal answer, and leaves the
+ideal content -/
+def _root_.Dawgs.C13.Prov.accepted (fixed snap : Bool) : Prov → List SeqOp → Bool
+  | _, [] => true
+  | p, op :: ops =>
+    match p.step fixed snap op with
+    | (p', some r) => decide (r = answer p.set (op.spec p)) && decide (p'.set = next p.set (op.spec p)) && Prov.accepted fixed snap p' ops
+    | (_, none) => false
+
+/-- operands a caller can pass: canonical sets; a wrapper operand whose mutex is free; the receiver itself only for a
+wrapper (a plain bitmap as its own operand is the alias case of the roaring findings); a Duplex -/
+def SeqOp.Ok (wrapped : Bool) : SeqOp → Prop
+  | .bin _ (.bitmap s) => Sorted s
+  | .bin _ (.wrapper l s) => l = false ∧ Sorted s
+  | .bin _ .selfWrapper => wrapped = true
+  | .bin _ .nonDuplex => False
+  | _ => True
+
 end Dawgs.C13.Spec
